@@ -138,7 +138,7 @@ def compare(ctx, infr, inam, edges, mode, case, tag):
     if abs(dense.sum() - intot) > tol or abs(one.sum() - intot) > tol:
         ctx.violation('hht-total', 'spectrum total %.6g differs from the total in-range %s %.6g' % (dense.sum(), mode, intot), case)
         return
-    if not (np.array_equal(f0, infr) and np.array_equal(a0, inam)):
+    if not (np.array_equal(f0, infr, equal_nan=True) and np.array_equal(a0, inam, equal_nan=True)):
         ctx.violation('hht-mutates-input', 'a spectrum routine modified its input arrays', case)
         return
     if infr.flags.writeable and inam.flags.writeable:
@@ -254,6 +254,9 @@ def run_shard(ctx):
         if T > 100000:
             infr[T // 3:2 * T // 3] = hi + 1.0                       # a long stretch with nothing in range
         mode = gens.pick(rng, ['energy', 'amplitude'])
+        if rng.random() < .1 and T < 100000:
+            infr[rng.integers(0, T, 2), rng.integers(0, M, 2)] = np.nan      # blanked frequency estimates: in no bin
+            ctx.count('cases_with_nan_frequencies')
         if rng.random() < .12:
             # the unit of frequency is the caller's: the same recording and bins in Hz for very slow or very fast processes
             u = float(gens.pick(rng, [1e-9, 1e-6, 1e6]))
